@@ -193,6 +193,10 @@ pub mod roundtrip_spec {
             twos(spec_content(enc_int(x as int) + rest)) == x,
             spec_rest(enc_int(x as int) + rest) == rest,
     {
+        // the readers are used through lemma_tlv_reads_back only: their bodies stay folded (keeps the query small and stable)
+        hide(spec_header);
+        hide(spec_content);
+        hide(spec_rest);
         lemma_i64_roundtrip(x);
         lemma_tlv_reads_back(2, int_octets(x as int), rest);
     }
@@ -212,6 +216,10 @@ pub mod roundtrip_spec {
             &&& spec_rest(ve).len() == 0
         })
     {
+        // the readers are used through lemma_tlv_reads_back only: their bodies stay folded (keeps the query small and stable)
+        hide(spec_header);
+        hide(spec_content);
+        hide(spec_rest);
         let inner = enc_oid(name) + enc_null();
         lemma_tlv_len(6, name);
         lemma_tlv_reads_back(0x30, inner, rest);
@@ -263,6 +271,10 @@ pub mod roundtrip_spec {
             &&& spec_rest(b3).len() == 0
         })
     {
+        // the readers are used through lemma_tlv_reads_back only: their bodies stay folded (keeps the query small and stable)
+        hide(spec_header);
+        hide(spec_content);
+        hide(spec_rest);
         let l = tlv(0x30, enc_varbinds(names));
         let b = enc_pdu_body(rid as int, f1 as int, f2 as int, names);
         assert(b =~= enc_int(rid as int) + (enc_int(f1 as int) + (enc_int(f2 as int) + l)));
@@ -288,6 +300,10 @@ pub mod roundtrip_spec {
             &&& spec_rest(e1) == pdu
         })
     {
+        // the readers are used through lemma_tlv_reads_back only: their bodies stay folded (keeps the query small and stable)
+        hide(spec_header);
+        hide(spec_content);
+        hide(spec_rest);
         let inner = enc_int(version as int) + enc_octets(community) + pdu;
         let m = enc_community_msg(version as int, community, pdu);
         assert(m =~= tlv(0x30, inner) + Seq::<u8>::empty());
@@ -321,6 +337,10 @@ pub mod roundtrip_spec {
             &&& spec_rest(e5).len() == 0
         })
     {
+        // the readers are used through lemma_tlv_reads_back only: their bodies stay folded (keeps the query small and stable)
+        hide(spec_header);
+        hide(spec_content);
+        hide(spec_rest);
         let p5 = enc_octets(privp);
         let p4 = enc_octets(auth) + p5;
         let p3 = enc_octets(user) + p4;
@@ -354,6 +374,10 @@ pub mod roundtrip_spec {
             &&& spec_rest(c1) == pdu
         })
     {
+        // the readers are used through lemma_tlv_reads_back only: their bodies stay folded (keeps the query small and stable)
+        hide(spec_header);
+        hide(spec_content);
+        hide(spec_rest);
         let e = Seq::<u8>::empty();
         let inner = enc_octets(engine_id) + enc_octets(e) + pdu;
         lemma_tlv_reads_back(0x30, inner, pad);
@@ -388,6 +412,10 @@ pub mod roundtrip_spec {
             &&& spec_rest(sp) == data
         })
     {
+        // the readers are used through lemma_tlv_reads_back only: their bodies stay folded (keeps the query small and stable)
+        hide(spec_header);
+        hide(spec_content);
+        hide(spec_rest);
         let g = enc_int(msg_id as int) + enc_int(2048) + tlv(4, seq![flags]) + enc_int(3);
         let inner = enc_int(3) + tlv(0x30, g) + tlv(4, usm) + data;
         let m = enc_v3(msg_id as int, flags, usm, data);
